@@ -54,21 +54,21 @@ Proof.
   - apply IH; [assumption | intro X; apply H; right; exact X].
 Qed.
 
-Lemma uniq_title_fresh : forall f l used idx t t', uniq_title f l used idx t = Ok t' -> text_mem t' used = false.
+Lemma uniq_title_fresh : forall esc f l used idx t t', uniq_title esc f l used idx t = Ok t' -> text_mem t' used = false.
 Proof.
-  induction f as [|f IH]; intros l used idx t t' H; simpl in H; [discriminate|].
+  intro esc. induction f as [|f IH]; intros l used idx t t' H; simpl in H; [discriminate|].
   destruct (text_mem t used) eqn:E; [apply (IH _ _ _ _ _ H) | inversion H; subst; exact E].
 Qed.
 
 Arguments uniq_title : simpl never.
 
-Lemma assign_titles_distinct : forall labels used ts, NoDup used ->
-  assign_titles labels used = Ok ts -> NoDup (used ++ ts).
+Lemma assign_titles_distinct : forall esc labels used ts, NoDup used ->
+  assign_titles esc labels used = Ok ts -> NoDup (used ++ ts).
 Proof.
-  induction labels as [|l r IH]; intros used ts N H; simpl in H.
+  intro esc. induction labels as [|l r IH]; intros used ts N H; simpl in H.
   - inversion H. rewrite List.app_nil_r. exact N.
-  - destruct (uniq_title (S (length used)) l used 1 l) as [t| |] eqn:E; try discriminate. cbn [bind] in H.
-    destruct (assign_titles r (used ++ [t])) as [ts'| |] eqn:E2; try discriminate. cbn [bind] in H.
+  - destruct (uniq_title esc (S (length used)) l used 1 (esc l)) as [t| |] eqn:E; try discriminate. cbn [bind] in H.
+    destruct (assign_titles esc r (used ++ [t])) as [ts'| |] eqn:E2; try discriminate. cbn [bind] in H.
     inversion H; subst. apply uniq_title_fresh in E. apply text_mem_false in E.
     specialize (IH (used ++ [t]) ts'). rewrite <- app_assoc in IH. apply IH; [|exact E2].
     apply NoDup_app_snoc; assumption.
@@ -224,7 +224,7 @@ Qed.
    (The hypothesis `NoDup (map ucase titles)` above is needed; replayed on the implementation by
    the harness: key dataset-nexus-unreadable:namespace-titles-equal-up-to-case.) *)
 Lemma title_case_refuted_l :
-  exists labels titles, assign_titles labels [] = Ok titles /\ NoDup titles
+  exists labels titles, assign_titles (fun t => t) labels [] = Ok titles /\ NoDup titles
     /\ exists t, In t titles /\ resolve_in (tab_of (map (fun x => (x, @nil text)) titles)) (Some t) [] = Err ParseErr.
 Proof.
   exists [[110; 115]; [78; 83]], [[110; 115]; [78; 83]]. split; [vm_compute; reflexivity|].
